@@ -113,6 +113,9 @@ class ContentProvider(object):
                     raise ContentException("Empty after cleaning: %s" % self.path)
             else:
                 log.debug("Skipping cleaning %s", self.relative_path)
+                # nothing cleans this spec: blank lines only is empty all the same
+                if isinstance(content, list) and not any(content):
+                    raise ContentException("Empty: %s" % self.path)
         return content
 
     @property
